@@ -99,6 +99,17 @@ func init() {
 			"xmssVerifySig's callees (hMsg, wotsPKFromSig, lTree, validateAuthPath) enter through their `pure` abstraction plus the hash-construction contracts of C06; the recursive chain/L-tree/fold structure is not under functional contract",
 		},
 	}
+	propConfigs["C10"] = &propConfig{
+		level: "proof",
+		extras: func(e *Engine, tier string, seed int) []ExtraResult {
+			return e.tableRun("misc", "misc/table_test.go.txt", 2)
+		},
+		trusted: []string{
+			"T5 assumed library semantics, stated over abstract strings in spec/20_strings.smt2: fmt.Fprint into a bytes.Buffer appends its operands; strings.Split(s, \" \") tokenises; Join(Split(s)) = s; splitting a phrase joined from non-empty blank-free words returns those words; Go map insert/lookup",
+			"word-list facts (4096 pairwise distinct, non-empty, lower-case, blank-free words) are decided exhaustively on the real table by the table back end and enter the proofs as axioms",
+			"refusal of irregular spacing / letter case follows from 'a token that is not a list word is refused' together with the assumed Split semantics (an empty or upper-case token is not a list word); it is not proved at the byte level",
+		},
+	}
 	propConfigs["C08"] = &propConfig{
 		level:   "other",
 		explain: "Deductive part: (i) bdsRound, bdsTreeHashUpdate, treeHashSetup and initializeTree carry `pure` contracts (result and final state are a function of the arguments; bdsRound/bdsTreeHashUpdate depend on the address argument only through addr[0:3]) discharged by the effects back end on go/ssa, with assigns clauses confining their writes to the traversal state; (ii) lemma function verifLemmaUpdateToCurrentIsIdentity: a jump to the current index changes neither sk nor any traversal buffer; (iii) the index/seed part of the state (sk) evolves identically on the signing and the fast-forward path (C02 contracts). The product-program lemma 'one Sign step == one fast-forward step on the whole traversal state' (verifLemmaSignStepEqualsUpdateStep) is written and well-formed but the solvers do not decide it within the limits; it is NOT claimed. Bounded stand-in for it (labelled bounded): with the real hash functions, for every index of the listed small heights and all three hash functions, the complete state (sk, stack, levels, auth, keep, retain, every treehash instance) reached by signing equals the state reached by one jump and by two jumps on a fresh key, and the next signatures are byte-identical.",
